@@ -224,6 +224,69 @@ def _patch_selene_build():
     build._verif = True
     build._orig = _b
     selene_sim.build = build
+    _patch_zig_cache()
+
+
+def zig_cache_dir() -> str:
+    d = os.environ.get("VERIF_ZIG_CACHE") or os.path.join(
+        os.path.dirname(os.path.dirname(os.path.abspath(__file__))), ".work", "zig-cache")
+    os.makedirs(d, exist_ok=True)
+    return d
+
+
+def _patch_zig_cache():
+    """selene gives every build a fresh ZIG_LOCAL_CACHE_DIR, so zig re-builds its runtime pieces
+    for every program (5-30 CPU-seconds per link).  Point all builds at one shared cache
+    directory (zig's cache is content-addressed and lock-protected): pure build-time saving,
+    same artifacts."""
+    import importlib
+
+    try:
+        utils = importlib.import_module("selene_core.build_utils.utils")
+    except ImportError:
+        return
+    orig = utils.invoke_zig
+    if getattr(orig, "_verif", False):
+        return
+
+    def invoke_zig(*args, handle_triple=True, verbose=False, cache_dir=None):
+        """same command line as selene's invoke_zig, but the zig binary is executed directly
+        (not through `python -m ziglang`, which costs one more interpreter start per call) and
+        with the shared cache directory"""
+        import subprocess
+
+        try:
+            import ziglang
+
+            zig = os.path.join(os.path.dirname(ziglang.__file__), "zig")
+        except ImportError:
+            zig = None
+        if zig is None or not os.path.exists(zig):
+            from pathlib import Path
+
+            return orig(*args, handle_triple=handle_triple, verbose=verbose, cache_dir=Path(zig_cache_dir()))
+        argv = [zig] + [str(a) for a in args]
+        if handle_triple:
+            triple = utils.get_target_triple()
+            if triple is not None:
+                argv += ["-target", triple]
+        env = os.environ.copy()
+        env["ZIG_LOCAL_CACHE_DIR"] = zig_cache_dir()
+        h = subprocess.Popen(argv, stdout=subprocess.DEVNULL, stderr=subprocess.PIPE, env=env)
+        _, stderr = h.communicate()
+        if h.returncode != 0:
+            raise RuntimeError(f"zig command failed:\n  Command: {' '.join(argv)}\n  Error: {stderr.decode()}")
+
+    invoke_zig._verif = True
+    utils.invoke_zig = invoke_zig
+    for name in ("selene_core.build_utils", "selene_core.build_utils.builtins.helios",
+                 "selene_core.build_utils.builtins.sol", "selene_core.build_utils.builtins.selene"):
+        try:
+            m = importlib.import_module(name)
+        except ImportError:
+            continue
+        if hasattr(m, "invoke_zig"):
+            m.invoke_zig = invoke_zig
 
 
 # ------------------------------------------------------------------ validation
